@@ -6,10 +6,12 @@ import (
 	"go/ast"
 	"go/token"
 	"go/types"
+	"regexp"
 	"strings"
 
 	"golibcheck/internal/core"
 	"golibcheck/internal/paths"
+	"golang.org/x/tools/go/packages"
 )
 
 // C16 — log-sink zip batching emits every record exactly once, in order, decodably.
@@ -50,13 +52,136 @@ func zipMethod(p *core.Program, name string) *core.FuncInfo {
 }
 
 type zipCtx struct {
-	p    *core.Program
-	fi   *core.FuncInfo
-	recv string
+	p     *core.Program
+	fi    *core.FuncInfo
+	recv  string
+	roles [][2]string // field path inside a nested batch record -> the name the rules use
 }
 
+var zipSimpleParen = regexp.MustCompile(`(^|[^\w.)\]])\(([A-Za-z_][\w.]*(\(\))?)\)`)
+
 func (z *zipCtx) norm(e ast.Expr) string {
-	return strings.ReplaceAll(stripSpaces(types.ExprString(e)), z.recv+".", "")
+	s := strings.ReplaceAll(stripSpaces(types.ExprString(e)), z.recv+".", "")
+	if len(z.roles) > 0 {
+		for _, ro := range z.roles {
+			s = replaceWord(s, ro[0], ro[1])
+		}
+		// (batch.size()) after inlining an accessor: the parentheses carry nothing
+		s = zipSimpleParen.ReplaceAllString(s, "$1$2")
+	}
+	return s
+}
+
+// replaceWord replaces from by to where from is not preceded by an identifier character or a dot.
+func replaceWord(s, from, to string) string {
+	var b strings.Builder
+	for i := 0; i < len(s); {
+		if strings.HasPrefix(s[i:], from) && (i == 0 || !(isIdentByte(s[i-1]) || s[i-1] == '.')) {
+			j := i + len(from)
+			if j == len(s) || !isIdentByte(s[j]) {
+				b.WriteString(to)
+				i = j
+				continue
+			}
+		}
+		b.WriteByte(s[i])
+		i++
+	}
+	return b.String()
+}
+
+func isIdentByte(c byte) bool {
+	return c == '_' || (c >= '0' && c <= '9') || (c >= 'a' && c <= 'z') || (c >= 'A' && c <= 'Z')
+}
+
+// zipRoles: when the sender keeps its batch in a nested record (this.batch.buffer, this.batch.count)
+// the rules still speak of "buffer" and "packCount". The buffer is the one bytes.Buffer reachable
+// through a struct-typed field of the sender; the counter is the one nested integer field that is
+// both incremented by one and set to zero somewhere in the package.
+func zipRoles(p *core.Program, pk *packages.Package, named *types.Named) [][2]string {
+	st, ok := named.Underlying().(*types.Struct)
+	if !ok {
+		return nil
+	}
+	direct := map[string]bool{}
+	for i := 0; i < st.NumFields(); i++ {
+		direct[st.Field(i).Name()] = true
+	}
+	type leaf struct {
+		path string
+		v    *types.Var
+	}
+	var bufs, ints []leaf
+	for i := 0; i < st.NumFields(); i++ {
+		f := st.Field(i)
+		t := f.Type()
+		if pt, ok := t.(*types.Pointer); ok {
+			t = pt.Elem()
+		}
+		nt, ok := t.(*types.Named)
+		if !ok || nt.Obj().Pkg() != named.Obj().Pkg() {
+			continue
+		}
+		ist, ok := nt.Underlying().(*types.Struct)
+		if !ok {
+			continue
+		}
+		for j := 0; j < ist.NumFields(); j++ {
+			g := ist.Field(j)
+			gt := g.Type()
+			if pt, ok := gt.(*types.Pointer); ok {
+				gt = pt.Elem()
+			}
+			if gn, ok := gt.(*types.Named); ok && gn.Obj().Pkg() != nil && gn.Obj().Pkg().Path() == "bytes" && gn.Obj().Name() == "Buffer" {
+				bufs = append(bufs, leaf{f.Name() + "." + g.Name(), g})
+			}
+			if b, ok := gt.Underlying().(*types.Basic); ok && b.Info()&types.IsInteger != 0 {
+				ints = append(ints, leaf{f.Name() + "." + g.Name(), g})
+			}
+		}
+	}
+	var out [][2]string
+	if !direct["buffer"] && !direct["buf"] && len(bufs) == 1 {
+		out = append(out, [2]string{bufs[0].path, "buffer"})
+	}
+	if !direct["packCount"] && !direct["n"] {
+		var cands []leaf
+		for _, c := range ints {
+			inc, zero := false, false
+			for _, f := range pk.Syntax {
+				ast.Inspect(f, func(n ast.Node) bool {
+					fieldIs := func(e ast.Expr) bool {
+						sel, ok := ast.Unparen(e).(*ast.SelectorExpr)
+						return ok && pk.TypesInfo.ObjectOf(sel.Sel) == types.Object(c.v)
+					}
+					switch v := n.(type) {
+					case *ast.IncDecStmt:
+						if v.Tok == token.INC && fieldIs(v.X) {
+							inc = true
+						}
+					case *ast.AssignStmt:
+						if len(v.Lhs) == 1 && len(v.Rhs) == 1 && fieldIs(v.Lhs[0]) {
+							rs := stripSpaces(types.ExprString(v.Rhs[0]))
+							if v.Tok == token.ADD_ASSIGN && rs == "1" {
+								inc = true
+							}
+							if v.Tok == token.ASSIGN && rs == "0" {
+								zero = true
+							}
+						}
+					}
+					return true
+				})
+			}
+			if inc && zero {
+				cands = append(cands, c)
+			}
+		}
+		if len(cands) == 1 {
+			out = append(out, [2]string{cands[0].path, "packCount"})
+		}
+	}
+	return out
 }
 
 // config: events of the sender's methods. Same-receiver helper calls (doZip) are inlined.
@@ -819,7 +944,7 @@ func c16Paths(p *core.Program, r *core.Report) {
 		tn := core.RecvNamed(fi.Obj).Obj().Name()
 		name := "logsink/zip.(*" + tn + ")." + fi.Obj.Name()
 		pos := p.Pos(fi.Decl.Pos())
-		z := &zipCtx{p: p, fi: fi, recv: recvName(fi)}
+		z := &zipCtx{p: p, fi: fi, recv: recvName(fi), roles: zipRoles(p, pk, core.RecvNamed(fi.Obj))}
 		switch fi.Obj.Name() {
 		case "sendAndClear":
 			ps, _ := paths.Enumerate(fi.Decl.Body, z.config(true))
